@@ -17,13 +17,17 @@ vars == <<use, ty, lst>>
 \* the first string is "1": it prints like the number 1 (JSON equality still tells them apart)
 \* 9..12: strings that map to ONE identifier (a b, a_b, a-b, two blanks)
 Atoms == << JStr(<<"d1">>), JStr(<<"b", "e2", "pc", "sp", "a">>), JNum(4), JNum(8), JNum(6), JBool(TRUE), JBool(FALSE), JNull,
-            JStr(<<"a", "sp", "b">>), JStr(<<"a", "us", "b">>), JStr(<<"a", "hy", "b">>), JStr(<<"a", "sp", "sp", "b">>) >>
+            JStr(<<"a", "sp", "b">>), JStr(<<"a", "us", "b">>), JStr(<<"a", "hy", "b">>), JStr(<<"a", "sp", "sp", "b">>),
+            \* 13..17: strings hostile to a Go string literal (backslash + carriage return, quote + carriage return, backtick +
+            \* newline, tab, carriage return alone): the typed constant must hold exactly the listed string
+            JStr(<<"a", "bs", "cr", "b">>), JStr(<<"qt", "a", "cr">>), JStr(<<"bt", "nl", "a">>), JStr(<<"a", "tb", "b">>), JStr(<<"b", "cr", "a">>) >>
 NonMembers == << JStr(<<"a", "b">>), JNum(12), JArr(<<>>), JObj(<<>>) >>
 Values == Atoms \o NonMembers
 
 \* strings that map to ONE identifier (a b, a_b, a-b, two blanks): every 2- and 3-element list of them, as a typed
 \* string enum at a required position: each value needs a constant of its own
 CollideLists == {<<i, j>> : i \in 9..12, j \in 9..12} \cup {<<i, j, k>> : i \in 9..12, j \in 9..12, k \in 9..12}
+HostileLists == {<<i>> : i \in 13..17} \cup {<<13, 14, 15>>, <<15, 16, 17>>, <<17, 14, 13>>}
 Lists == {<<i>> : i \in 1..8} \cup {<<i, j>> : i \in 1..8, j \in 1..8} \cup {<<i, j, k>> : i \in 1..8, j \in 1..8, k \in 1..8}
 Distinct(l) == \A i, j \in DOMAIN l : i # j => l[i] # l[j]
 
@@ -102,7 +106,7 @@ AsIsOK   == Set => LET unit == u IN Agree(unit, Devs)
 Init == use \in Uses /\ ty \in Types_ /\ lst = <<0>>
 Pick == /\ lst = <<0>>
         /\ lst' \in {l \in Lists : Distinct(l) /\ Conforms(ty, l)}
-                   \cup (IF ty = "string" /\ use \in {"req", "ref"} THEN {l \in CollideLists : Distinct(l)} ELSE {})
+                   \cup (IF ty = "string" /\ use \in {"req", "ref"} THEN {l \in CollideLists : Distinct(l)} \cup HostileLists ELSE {})
         /\ UNCHANGED <<use, ty>>
 Next == Pick
 Spec == Init /\ [][Next]_vars
